@@ -248,7 +248,8 @@ func (n *scriptNumber) Int() int {
 // out of range before being reinterpreted as an integer, this will provide the
 // correct behaviour.
 func (n *scriptNumber) Int32() int32 {
-	v := n.val.Int64()
+	// Int64 clamps: after genesis the number may not fit 64 bits, and big.Int.Int64 would wrap
+	v := n.Int64()
 	if v > math.MaxInt32 {
 		return math.MaxInt32
 	}
